@@ -40,4 +40,5 @@ VARIANTS = [
     # F25: the pre-repair form (raw mapping read in before mode)
     V("match-validator-raw-mapping-before-mode(F25)", D + "matches.py", "    @model_validator(mode=\"after\")\n    def _validate_match(self):\n        \"\"\"Validate the match.\"\"\"\n        if self.source is None and self.target is None:\n            raise ValueError(\"Match cannot be between two null objects.\")\n        return self",
       "    @model_validator(mode=\"before\")\n    def _validate_match(cls, values):\n        \"\"\"Validate the match.\"\"\"\n        if values.get(\"source\") is None and values.get(\"target\") is None:\n            raise ValueError(\"Match cannot be between two null objects.\")\n        return values", "R04.6"),
+    V("match-validator-before-mode-reads-attributes", "src/soundevent/data/matches.py", '    @model_validator(mode="after")', '    @model_validator(mode="before")', "R04.2"),
 ]
